@@ -36,7 +36,8 @@ def c16():
               "window anywhere in a 32..2048 byte buffer): peer writes smaller than the window (silent partial progress), waits for a timeout, tp_task_stop + "
               "tp_task_start with a new window on the owning thread, TP_TASK_CB_NONE answers to a timeout or to the k-th data report (the task is paused), data "
               "arriving while paused, tp_task_enable(1), tp_task_stop + tp_task_restart; optionally the task is created bare and configured through the accessors "
-              "(tp_task_ident_set / tp_cb_func_set / flags_add / udata_set, getters compared); the stream always goes on at the end. Oracle over the ordered history: reported count == bytes moved "
+              "(tp_task_ident_set / tp_cb_func_set / flags_add / udata_set, getters compared); at the end the stream goes on, or the peer resets the connection with 1-3 bytes "
+              "still queued (ECONNRESET reported exactly once). Oracle over the ordered history: reported count == bytes moved "
               "into the window since the previous report / (re)start and those bytes are the next bytes of the stream, no report between a NONE answer and the "
               "re-enable / restart, a paused task does not read (FIONREAD at the re-enable), the next full window is reported, nothing after destroy. "
               "Unit C16_conn, check pkt_histories: datagram receiver (tp_task_pkt_rcvr_create) on an AF_UNIX SOCK_DGRAM pair or UDP 127.0.0.1, "
